@@ -179,14 +179,22 @@ def factorization_directions(rng, tier):
     def base_spd(p, n): B = numpy.array([native.rnd(rng) for _ in range(n * n)]).reshape(n, n); return B.dot(B.T) + (1.5 + p) * numpy.eye(n)
     facts = [('qr', lambda A: a.qr(A), 'gen'), ('cholesky', lambda A: (a.cholesky(A),), 'spd'), ('eigh', lambda A: a.eigh(A), 'symrep'), ('svd', lambda A: a.svd(A), 'gen'),
              ('inv', lambda A: (a.inv(A),), 'gen'), ('det', lambda A: (a.det(A),), 'gen'), ('logdet', lambda A: (a.logdet(A),), 'spd'), ('lu', lambda A: a.lu(A), 'gen'), ('qr_full', lambda A: a.qr_full(A), 'gen'),
-             ('qr[first direction rank-deficient]', lambda A: a.qr(A), 'rankdef')]
+             ('qr[first direction rank-deficient]', lambda A: a.qr(A), 'rankdef'),
+             # base matrices that need a DIFFERENT row interchange in each direction (none / reversal / cyclic): pivot vectors and permutation matrices are per direction
+             ('det[pivoting differs]', lambda A: (a.det(A),), 'genpiv'), ('logdet[pivoting differs]', lambda A: (a.logdet(A),), 'genpiv'), ('lu[pivoting differs]', lambda A: a.lu(A), 'genpiv'),
+             ('inv[pivoting differs]', lambda A: (a.inv(A),), 'genpiv'), ('solve[pivoting differs]', lambda A: (a.solve(A, A[:, :1] + 1.0),), 'genpiv')]
     for name, f, kind in facts:
         for n in ((2, 3) if kind != 'rankdef' else (3, 4)):
-            for (D, P) in ((2, 2), (3, 3)) if tier != 'quick' else ((2, 2),):
+            for (D, P) in (((2, 2), (3, 3)) if tier != 'quick' else (((2, 3),) if kind == 'genpiv' else ((2, 2),))):
                 A = numpy.array([native.rnd(rng) for _ in range(D * P * n * n)]).reshape(D, P, n, n)
                 if kind in ('spd', 'symrep'): A = sym(A)
                 for p in range(P):
                     if kind in ('gen', 'rankdef'): A[0, p] = A[0, p] + (2.0 + p) * numpy.eye(n)
+                    elif kind == 'genpiv':
+                        M = A[0, p] + (2.0 + p) * numpy.eye(n)
+                        M = M[::-1].copy() if p % 3 == 1 else (numpy.roll(M, 1, axis=0) if p % 3 == 2 else M)
+                        if name.startswith('logdet') and numpy.linalg.det(M) < 0: M[-1] = -M[-1]
+                        A[0, p] = M
                     elif kind == 'spd': A[0, p] = base_spd(p, n)
                     else:
                         q0, _ = numpy.linalg.qr(numpy.array([native.rnd(rng) for _ in range(n * n)]).reshape(n, n) + 2 * numpy.eye(n))
@@ -251,3 +259,62 @@ def dot_mixed_kinds(rng, tier):
                         if not numpy.allclose(r.data[d, p], w, rtol=1e-12, atol=1e-12): fail = 'coefficient %d of direction %d differs from numpy.dot with the constant operand' % (d, p); break
                     if fail: break
                 yield case, fail
+
+
+def plain_dispatch(rng, tier):
+    """C10, last sentence: called with plain arrays or scalars only, every algopy-level function with a NumPy/SciPy namesake returns what
+    that namesake returns.  The functions are discovered from the algopy namespace (nothing is listed by hand); the argument kinds are
+    Python float/int, numpy.float64, 0-d / 1-d / 2-d arrays (C and Fortran order, float and integer).  A kind the namesake itself refuses
+    is skipped.  Lists and tuples are not enumerated: the hand-written dispatchers refuse them explicitly and the property speaks of
+    arrays and scalars.  expm is left out: algopy.expm is documented as a fixed-order (7) Pade approximation without
+    scaling and squaring, not as a dispatch to scipy.linalg.expm, so its plain-array values agree with SciPy only to an accuracy that
+    depends on the norm of the matrix (1e-7 at norm 4)."""
+    import inspect, warnings, scipy.linalg, scipy.special
+    a = native.algopy(); U = a.UTPM
+    M = numpy.array([[1.3, 0.7], [0.2, 1.4]]) + 0.01 * native.rnd(rng)
+    kinds = [('float', 0.4), ('int', 2), ('float64', numpy.float64(0.4)), ('0-d', numpy.array(0.4)), ('1-d', numpy.array([0.3, 0.7, 0.5])), ('2-d', M), ('2-d[F]', numpy.asfortranarray(M)),
+             ('2-d[T]', M.T), ('1-d[int]', numpy.array([1, 2, 3])), ('2-d[int]', numpy.array([[2, 1], [1, 3]]))]
+    import algopy.special as asp, algopy.fft as afft
+    todo = []
+    for mod, refs, tag in ((a, (numpy, numpy.linalg, scipy.linalg, scipy.special), ''), (asp, (scipy.special,), 'special.'), (afft, (numpy.fft,), 'fft.')):
+        for nm in sorted(dir(mod)):
+            if nm.startswith('_') or nm == 'test': continue      # numpy.test is the test-suite runner, not a function of arrays
+            f = getattr(mod, nm)
+            if not callable(f) or inspect.isclass(f) or inspect.ismodule(f): continue
+            for ns in refs:
+                if callable(getattr(ns, nm, None)): todo.append((tag + nm, nm, f, getattr(ns, nm))); break
+    kd = dict(kinds); v2 = numpy.array([0.6, 0.2]); B = numpy.array([[0.5, 1.5], [2.5, 0.25]])
+    pairs = [('float,float', (0.4, 1.5)), ('1-d,1-d', (kd['1-d'], kd['1-d'][::-1])), ('2-d,2-d', (M, B)), ('2-d,1-d', (M, v2)), ('1-d,2-d', (v2, M)), ('float,1-d', (0.4, kd['1-d'])), ('1-d,float', (kd['1-d'], 1.5)),
+             ('1-d[int],float', (kd['1-d[int]'], 0.5)), ('2-d[T],2-d[F]', (M.T, numpy.asfortranarray(B))), ('int,int', (2, 3)), ('2-d,int', (M, 2)),
+             ('float,float,float', (0.5, 1.5, 0.3)), ('float,float,1-d', (0.5, 1.5, kd['1-d'])), ('float,float,2-d', (0.5, 1.5, M)), ('int,int,int', (1, 2, 3))]
+    cp = lambda t: t.copy() if isinstance(t, numpy.ndarray) else t
+    for full, nm, f, ref in todo:
+        if ref is None or nm == 'expm': continue
+        # never fill the reference's `out` parameter positionally: a ufunc takes exactly nin operands, another function as many as it has
+        # positional parameters before one named out / dtype / order / axis...
+        if isinstance(ref, numpy.ufunc): maxpos = ref.nin
+        else:
+            maxpos = 0
+            try:
+                for prm in inspect.signature(ref).parameters.values():
+                    if prm.kind not in (prm.POSITIONAL_ONLY, prm.POSITIONAL_OR_KEYWORD) or prm.name in ('out', 'dtype', 'order', 'axis', 'overwrite_a', 'check_finite', 'mode', 'UPLO', 'k'): break
+                    maxpos += 1
+            except (TypeError, ValueError): maxpos = 1
+        for kname, arg in kinds + pairs:
+            args = arg if isinstance(arg, tuple) else (arg,)
+            if len(args) > maxpos: continue
+            with warnings.catch_warnings(), numpy.errstate(all='ignore'):
+                warnings.simplefilter('ignore')
+                try: want = ref(*[cp(t) for t in args])
+                except Exception: continue
+                if want is None: continue
+                case = {'function': full, 'arg': kname}
+                try: got = f(*[cp(t) for t in args])
+                except Exception as e: yield case, 'raises %s (%s) where the NumPy/SciPy function of the same name returns a value' % (type(e).__name__, str(e)[:80]); continue
+                try:
+                    ws = want if isinstance(want, tuple) else (want,); gs = got if isinstance(got, tuple) else (got,)
+                    ok = len(ws) == len(gs) and not any(isinstance(g, U) for g in gs)
+                    for w_, g_ in zip(ws, gs):
+                        ok = ok and numpy.shape(g_) == numpy.shape(w_) and numpy.array_equal(numpy.asarray(g_), numpy.asarray(w_), equal_nan=True)
+                except Exception as e: ok = False
+                yield case, (None if ok else 'result %s differs from what the NumPy/SciPy function returns (%s)' % (str(got)[:60], str(want)[:60]))
